@@ -58,7 +58,8 @@ def run(rep, tier, seed):
                       '; the bounded tier reports a failing input for this property in the same run' if hit else ''),
                       replay={'kind': 'obligation', 'obligation': o['name'], 'function': fn, 'solver_output': o.get('detail')}, nfi=not hit)
     rep.trusted = list(getattr(rep, 'trusted', []) or []) + ['pyvc VC generator (DESIGN.md 3), z3/cvc5',
-                   'heap-dictionary model of dict (dk/dv arrays keyed by canonical value), `lower` as an uninterpreted idempotent map on string values']
+                   'heap-dictionary model of dict (dk/dv arrays keyed by canonical value), `lower` as an uninterpreted idempotent map on string values',
+                   'IR heap model, Inv and the loop invariants of specs/ir.py / ir_loops.py (history level: the hypotheses Inv and Inv_NS before the call)']
     rep.assumptions = list(getattr(rep, 'assumptions', []) or []) + [
         'separation of dictionary objects (distinct policy objects own distinct dictionaries) is a precondition; it is re-established by every '
         'function under contract (preserved.sep.* obligations) and holds initially because __init__ allocates fresh dictionaries',
